@@ -12,11 +12,16 @@ import (
 // ValidateTrace is lib.ValidateTrace with extra files in TLC's scratch directory (the Interrupt family
 // extends modules of the Peach family).
 func ValidateTrace(c *lib.Ctx, name, dir, module string, events []Event, extra map[string][]byte, timeout time.Duration) (*lib.TraceVerdict, error) {
+	return ValidateTraceCfg(c, name, dir, module, "", events, extra, timeout)
+}
+
+// ValidateTraceCfg: the same with a named configuration file (default Module.cfg).
+func ValidateTraceCfg(c *lib.Ctx, name, dir, module, cfg string, events []Event, extra map[string][]byte, timeout time.Duration) (*lib.TraceVerdict, error) {
 	files := map[string][]byte{"trace.ndjson": lib.NDJSON(events)}
 	for k, v := range extra {
 		files[k] = v
 	}
-	r, err := lib.RunTLC(lib.TLCRun{Dir: dir, Module: module, Workers: 1, DFS: true, Timeout: timeout, HeapGB: 6, Files: files})
+	r, err := lib.RunTLC(lib.TLCRun{Dir: dir, Module: module, Cfg: cfg, Workers: 1, DFS: true, Timeout: timeout, HeapGB: 6, Files: files})
 	v := &lib.TraceVerdict{Len: len(events), Result: r}
 	if err != nil {
 		return v, lib.InfraError{Err: err}
@@ -72,7 +77,11 @@ type Item struct {
 // reject is called for it with HighWater made relative to the run, and the remainder is judged again.
 // Runs marked Known are judged in their own sequence; after capKnown rejections there the rest is
 // skipped (returned count).
-func JudgeAll(c *lib.Ctx, dir string, extra map[string][]byte, items []Item, capKnown, maxEvents, par int,
+//
+// nameCfg (may be ""): the module's own configuration decides acceptance EXISTENTIALLY (its invariants
+// prune, see TraceInterrupt.tla); a rejected run is then judged once more, alone, with nameCfg in which
+// the same invariants are INVARIANTs, only to name what is violated.
+func JudgeAll(c *lib.Ctx, dir string, extra map[string][]byte, items []Item, capKnown, maxEvents, par int, nameCfg string,
 	reject func(it Item, v *lib.TraceVerdict)) (int, error) {
 	type seq struct {
 		module string
@@ -166,10 +175,35 @@ func JudgeAll(c *lib.Ctx, dir string, extra map[string][]byte, items []Item, cap
 			}
 			c.AddTraces(k + 1)
 			v.HighWater = pos - start
+			mu.Unlock()
+			if nameCfg != "" {
+				nv, err := ValidateTraceCfg(c, s.module+"(naming)", dir, s.module, nameCfg, items[part[k]].Events, extra, 14*time.Minute)
+				mu.Lock()
+				if err != nil {
+					if firstErr == nil {
+						firstErr = err
+					}
+					mu.Unlock()
+					return
+				}
+				mu.Unlock()
+				if nv.Accepted {
+					// no invariant is violated on the paths TLC walked and the whole run is explained: it was
+					// rejected only in the concatenation => the trouble is at the seam, report the structure
+					nv = v
+				} else {
+					nv.HighWater = Position(nv)
+				}
+				v = nv
+			}
+			mu.Lock()
 			reject(items[part[k]], v)
 			mu.Unlock()
 			rejections++
 			idx = idx[k+1:]
+			if c.Violations() > 20 {
+				return // more than the framework stores: stop judging, the verdict is exit 1 anyway
+			}
 		}
 	})
 	return skipped, firstErr
